@@ -335,6 +335,48 @@ def silhouette (d : List (List α)) (labels : List Nat) : α :=
   else
     let idx := List.range labels.length
     sumS ((idx.zip labels).map fun (i, li) => silSample d labels i li) / ((labels.length : Nat) : α)
+
+/-- the per-sample value with the label set `ls` and the cluster sizes `cnt` given from outside
+(`silSample` is this with `labelSet labels` / `labelCount labels`, by `rfl`) -/
+def silSampleC (ls : List Nat) (cnt : Nat → Nat) (d : List (List α)) (labels : List Nat) (i li : Nat) : α :=
+  let own := cnt li
+  let a : α := if own = 1 then 0 else totalDist d labels i li / ((own - 1 : Nat) : α)
+  let others := ls.filter (· != li)
+  let means : List α := others.map fun l => totalDist d labels i l / ((cnt l : Nat) : α)
+  match means with
+  | [] => 0
+  | m0 :: ms =>
+    let b := ms.foldl (fun v m => if m < v then m else v) m0
+    if b ≤ a then (b - a) / a else (b - a) / b
+
+/-- `label_count()` of targets counted on `cl`: (label, count) in first-appearance order -/
+def labelCache (cl : List Nat) : List (Nat × Nat) := (labelSet cl).map fun l => (l, labelCount cl l)
+
+def cacheCount (cache : List (Nat × Nat)) (l : Nat) : Nat := ((cache.find? fun p => p.1 == l).map Prod.snd).getD 0
+
+/-- `silhouette_score` of a dataset whose `label_count()` answers with `cache` (a `CountedTargets`
+counted before its targets were overwritten): cached labels and cluster sizes, `none` = the
+`labels.get_mut(..).unwrap()` panic on a label of the data that was never counted -/
+def silhouetteC (cache : List (Nat × Nat)) (d : List (List α)) (labels : List Nat) : Option α :=
+  let ls := cache.map Prod.fst
+  if ls.length = 1 then some 1
+  else if labels.any (fun l => !ls.contains l) then none
+  else
+    let idx := List.range labels.length
+    some (sumS ((idx.zip labels).map fun (i, li) => silSampleC ls (cacheCount cache) d labels i li) /
+      ((labels.length : Nat) : α))
+
+/-- `eval_sample.sub(&other_sample).mapv(|x| x * x).sum()` -/
+def sqDist (x y : List α) : α := sumS (List.zipWith (fun a b => (a - b) * (a - b)) x y)
+
+variable [Transc α]
+
+/-- the distances `add_point` accumulates: `sqrt` of the squared Euclidean distance of every pair of records -/
+def distMatrix (x : List (List α)) : List (List α) :=
+  x.map fun xi => x.map fun xj => Transc.sqrt (sqDist xi xj)
+
+/-- `DatasetBase::silhouette_score` of the records `x` with the labels `labels` -/
+def silhouettePts (x : List (List α)) (labels : List Nat) : α := silhouette (distMatrix x) labels
 end Sil
 
 /-! ## Pearson -/
